@@ -95,7 +95,7 @@ def scenarios(draw):
     n = draw(st.integers(1, 8))
     ids = ['rec%d' % i for i in range(n)]
     pool = ['equal', 'equal', 'equal', 'different', 'player_raises', 'exit', 'hang', 'hang', 'late',
-            'hang_sigterm_ignored', 'dies_after_giveup', 'bad_answer']
+            'hang_sigterm_ignored', 'dies_after_giveup', 'bad_answer', 'killed_in_poll']
     behs = [draw(st.sampled_from(pool)) for _ in ids]
     faults = [i for i, b in enumerate(behs) if b in PF.PROCESS_FAULTS]
     for i in faults[3:]:
@@ -108,6 +108,8 @@ def scenarios(draw):
 
 
 FIXED = [
+    {'ids': ['a', 'b', 'c'], 'script': {'a': 'equal', 'b': 'killed_in_poll', 'c': 'equal'}, 'dedicated': True,
+     'recycle': 3, 'timeout': 0.3, 'keep': False, 'consume': 'full', 'hard_cap_s': 30},
     {'ids': ['a', 'b', 'c'], 'script': {'a': 'hang', 'b': 'hang', 'c': 'equal'}, 'dedicated': True, 'recycle': 2,
      'timeout': 0.2, 'keep': False, 'consume': 'full'},
     {'ids': ['a', 'b', 'c', 'd'], 'script': {'a': 'equal', 'b': 'equal', 'c': 'equal', 'd': 'equal'}, 'dedicated': True,
